@@ -6,9 +6,11 @@ import (
 	"net/http"
 	"os"
 	"path/filepath"
+	"reflect"
 	"strings"
 	"sync/atomic"
 	"time"
+	"unsafe"
 
 	"github.com/johannesboyne/gofakes3"
 	"github.com/johannesboyne/gofakes3/backend/s3afero"
@@ -118,11 +120,23 @@ func (s *System) open(fresh bool) error {
 		if fresh {
 			s.dir = newDir()
 		}
+		if s.Opts.BoltSync {
+			// C15: the constructor the real binary uses (s3bolt.NewFile, fsync on); the *bolt.DB it keeps
+			// is unexported, so it is fetched by reflection in order to close it before a reopen
+			be, err := s3bolt.NewFile(filepath.Join(s.dir, "db.bolt"))
+			if err != nil {
+				return err
+			}
+			v := reflect.ValueOf(be).Elem().FieldByName("bolt")
+			s.boltDB = *(**bolt.DB)(unsafe.Pointer(v.UnsafeAddr()))
+			s.Backend = be
+			break
+		}
 		db, err := bolt.Open(filepath.Join(s.dir, "db.bolt"), 0600, &bolt.Options{Timeout: 5 * time.Second})
 		if err != nil {
 			return err
 		}
-		db.NoSync = !s.Opts.BoltSync
+		db.NoSync = true
 		s.boltDB = db
 		s.Backend = s3bolt.New(db)
 	case "multimem":
